@@ -23,7 +23,7 @@ import (
 	"github.com/flamego/flamego/verifharness/internal/rt"
 )
 
-const rule = "case = one request: a query string (value-first: generated values - arbitrary bytes, separators, blanks, non-ASCII, numbers at and beyond the int range, boolean and float literals, garbage - are percent-encoded by the harness' own encoder; or a raw hostile query string), a bind parameter value sent through a /{v} route, a cookie value (arbitrary bytes, read twice) and a raw Cookie header; optionally the request is a POST whose urlencoded body (parsed by an earlier handler) carries other values under the same key; every accessor is called with and without a default. " +
+const rule = "case = one request: a query string (value-first: generated values - arbitrary bytes, separators, blanks, non-ASCII, numbers at and beyond the int range, boolean and float literals, garbage - are percent-encoded by the harness' own encoder; optionally next to malformed pairs under other keys; or a raw hostile query string), a bind parameter value sent through a /{v} route, a cookie value (arbitrary bytes, read twice) and a raw Cookie header; optionally the request is a POST whose urlencoded body (parsed by an earlier handler) carries other values under the same key; every accessor is called with and without a default; optionally two further requests to one static route, the first of which writes a key into its own Params() that the second reads. " +
 	"Oracle: no panic; an own evaluation of the rule (own percent codec, own integer recogniser + big.Int range check, own 12-literal boolean table, exact float round trip, trim = TrimSpace of Query); the Set-Cookie header produced by SetCookie is fed back as a Cookie header and must read back byte for byte. " +
 	"non-trivial = a value with control bytes, separators (; , = & % + blank), non-ASCII / invalid UTF-8, a number at or over the int range, a malformed typed value with a default supplied, or a raw hostile query / cookie header; distinct by case text"
 
@@ -55,7 +55,16 @@ type Case struct {
 	Form bool `json:"form_body,omitempty"`
 	// EncKey: the key is spelled percent-encoded on the wire ("%6B" for "k").
 	EncKey bool `json:"encoded_key,omitempty"`
+	// Junk: malformed pairs under other keys next to the pair under test
+	// (before it when JunkFirst): they are nobody's value, "k" is still present.
+	Junk      []string `json:"junk_pairs,omitempty"`
+	JunkFirst bool     `json:"junk_first,omitempty"`
+	// Leak: before the request under test, another request to the same static
+	// route wrote this key into its own Params(); the one under test reads it.
+	Leak bool `json:"params_written_by_earlier_request,omitempty"`
 }
+
+var junkPairs = []string{"junk=%zz", "%=1", "a=%", "x;y=1", "=", "", "%zz", "b=%4", "c=1;d=2", "e=%%", "=%"}
 
 func unq(s string) string {
 	if s == "" {
@@ -179,6 +188,16 @@ func checkCase(c Case) (out evid.Outcome) {
 		_ = ctx.RemoteAddr()
 	})
 
+	var leaked string
+	var leakedInt int
+	f.Get("/static/page", func(ctx flamego.Context) {
+		if ctx.Request().Header.Get("X-Write") != "" {
+			ctx.Params()["note"] = "41"
+			return
+		}
+		leaked, leakedInt = ctx.Param("note"), ctx.ParamInt("note")
+	})
+
 	// 1. write the cookie
 	var escaped interface{}
 	func() {
@@ -211,6 +230,11 @@ func checkCase(c Case) (out evid.Outcome) {
 		for _, m := range c.More {
 			parts = append(parts, key+"="+enc(unq(m)))
 		}
+		if c.JunkFirst {
+			parts = append(append([]string{}, c.Junk...), parts...)
+		} else {
+			parts = append(parts, c.Junk...)
+		}
 		query = strings.Join(parts, "&")
 	}
 	h := http.Header{}
@@ -236,6 +260,16 @@ func checkCase(c Case) (out evid.Outcome) {
 		return evid.Fail("panic", "an accessor panicked: %v; %s", escaped, desc)
 	}
 
+	if c.Leak {
+		wh := http.Header{}
+		wh.Set("X-Write", "1")
+		f.ServeHTTP(rt.NewSpy(), rt.NewRequest("GET", "/static/page", wh))
+		f.ServeHTTP(rt.NewSpy(), rt.NewRequest("GET", "/static/page", nil))
+		if leaked != "" || leakedInt != 0 {
+			return evid.Fail("param-absent", "a bind parameter that this request does not have reads %q / %d: an earlier request to the same route had written it into its own Params(); %s", leaked, leakedInt, desc)
+		}
+	}
+
 	// ---- classification
 	nt := false
 	hostile := func(x string) bool {
@@ -258,6 +292,10 @@ func checkCase(c Case) (out evid.Outcome) {
 	if c.Form {
 		nt = true
 		out.Classes = append(out.Classes, "post-with-parsed-form")
+	}
+	if len(c.Junk) > 0 && !raw && !c.Absent {
+		nt = true
+		out.Classes = append(out.Classes, "malformed-sibling-pairs")
 	}
 
 	// ---- cookie round trip (independent of the query part)
@@ -515,6 +553,13 @@ func genCase(t *rapid.T) Case {
 	}
 	c.Form = rapid.IntRange(0, 3).Draw(t, "form") == 0
 	c.EncKey = rapid.IntRange(0, 3).Draw(t, "enckey") == 0
+	if rapid.IntRange(0, 3).Draw(t, "junk") == 0 {
+		for i, n := 0, rapid.IntRange(1, 3).Draw(t, "njunk"); i < n; i++ {
+			c.Junk = append(c.Junk, junkPairs[rapid.IntRange(0, len(junkPairs)-1).Draw(t, "jp")])
+		}
+		c.JunkFirst = rapid.Bool().Draw(t, "junkfirst")
+	}
+	c.Leak = rapid.IntRange(0, 4).Draw(t, "leak") == 0
 	if rapid.IntRange(0, 4).Draw(t, "rawck") == 0 {
 		c.RawCk = strconv.QuoteToASCII([]string{"%zz", "a b", "\"q\"", "x;y", "a=b", "%41", "\xff", "", "a+b%20c", "%4", "100%"}[rapid.IntRange(0, 10).Draw(t, "rck")])
 		if unq(c.RawCk) == "" {
